@@ -119,3 +119,70 @@ class VisitorTheory(Theory):
 
     def smt_sort(self, sort):
         return {'VarAst': 'String'}.get(sort)
+
+
+from .theory_compiler import CompilerTheory  # noqa: E402
+
+
+class ParseTheory(CompilerTheory):
+    """ANTLR parse-tree contexts of `predicateexpression` as the datatype PE (spec/control.smt2); accessor methods of the
+    generated context class (simplepredicate(), op, predicateexpression(i)) as selectors with presence conditions."""
+    COMPS = []
+    NO_TERM_COMPS = True
+
+    def mk_param(self, ex, st, n, sort, sub):
+        if sort == 'PE':
+            return SV('PE', ex.fresh('PE', n))
+        if sort == 'VSelf':
+            return SV('CSelf', None)
+        return CompilerTheory.mk_param(self, ex, st, n, sort, sub)
+
+    def attr_read(self, ex, base, attr, st, node):
+        if base.sort == 'PE' and attr == 'op':
+            b = base.e
+            return [(st, SV('OptTok', ITE('((_ is PENeg) %s)' % b, smt_str('\\+'), '(peop %s)' % b),
+                        {'none': NOT(OR('((_ is PENeg) %s)' % b, '((_ is PEBin) %s)' % b))}))]
+        if base.sort == 'OptTok' and attr == 'text':
+            ex.oblige(st, 'safety.op_present', NOT(base.meta['none']), 'safety')
+            return [(st, SV('Str', base.e))]
+        return CompilerTheory.attr_read(self, ex, base, attr, st, node)
+
+    def truthy(self, ex, v):
+        if v.sort == 'OptTok':
+            return NOT(v.meta['none'])
+        return None
+
+    def is_none(self, ex, other, st):
+        if other.sort in ('OptSP', 'OptTok'):
+            return other.meta['none']
+        return None
+
+    def equal(self, ex, e, op, a, b, st):
+        if a.sort == 'PEChildren' and b.sort == 'PyList' and not b.meta['items']:
+            return '((_ is PESimple) %s)' % a.e
+        return CompilerTheory.equal(self, ex, e, op, a, b, st)
+
+    def apply_method(self, ex, e, base, meth, args, st):
+        if base.sort == 'PE':
+            b = base.e
+            if meth == 'simplepredicate' and not args:
+                return [(st, SV('OptSP', '(pesp %s)' % b, {'none': NOT('((_ is PESimple) %s)' % b)}))]
+            if meth == 'predicateexpression' and not args:
+                return [(st, SV('PEChildren', b))]
+            if meth == 'predicateexpression' and len(args) == 1 and args[0].e in ('0', '1'):
+                i = args[0].e
+                if i == '0':
+                    ex.oblige(st, 'safety.child0_present', NOT('((_ is PESimple) %s)' % b), 'safety')
+                    return [(st, SV('PE', ITE('((_ is PENeg) %s)' % b, '(pen %s)' % b, ITE('((_ is PEBin) %s)' % b, '(pel %s)' % b, '(pep %s)' % b))))]
+                ex.oblige(st, 'safety.child1_present', '((_ is PEBin) %s)' % b, 'safety')
+                return [(st, SV('PE', '(per %s)' % b))]
+        return CompilerTheory.apply_method(self, ex, e, base, meth, args, st)
+
+    def coerce(self, ex, a, want, st):
+        if want == 'SP' and a.sort == 'OptSP':
+            ex.oblige(st, 'safety.simplepredicate_present', NOT(a.meta['none']), 'safety')
+            return SV('SP', a.e)
+        return CompilerTheory.coerce(self, ex, a, want, st)
+
+    def smt_sort(self, sort):
+        return {'SP': 'Int', 'Label': 'Int'}.get(sort)
